@@ -1,10 +1,13 @@
 import SecsModel.Props.C17
 #print axioms SecsModel.Props.C17.handshake_bytes
 #print axioms SecsModel.Props.C17.reach
+#print axioms SecsModel.Props.C17.bounded
 #print axioms SecsModel.Props.C17.delivery
+#print axioms SecsModel.Props.C17.delivery_returns
 #print axioms SecsModel.Props.C17.chunking_irrelevant
 #print axioms SecsModel.Props.C17.delivery_message
-#print axioms SecsModel.Props.C17.nak_partial
-#print axioms SecsModel.Props.C17.nak_message_partial
+#print axioms SecsModel.Props.C17.nak
+#print axioms SecsModel.Props.C17.nak_returns
+#print axioms SecsModel.Props.C17.nak_message
 #print axioms SecsModel.Props.C17.framed1
 #print axioms SecsModel.Props.C17.framed2
